@@ -321,7 +321,8 @@ def finish(report, min_report=25):
             sys.stdout.write("TRIAGE %5d %s toks=%s\n        e.g. %s :: %s\n" % (
                 len(vs), key, sorted(t for t in (vs[0].get("tokens") or ()))[:12],
                 json.dumps(jsonable(vs[0].get("case")))[:260], json.dumps(jsonable(vs[0].get("detail")))[:260]))
-    rdir = os.path.join(VERIF, "replays", prop)
+    scratch = bool(os.environ.get("VERIF_REPO"))      # run against another checkout: keep committed artefacts untouched
+    rdir = os.path.join(VERIF, "replays", "_scratch", prop) if scratch else os.path.join(VERIF, "replays", prop)
     lines = []
     seen_classes = set()
     for v in fresh:
@@ -355,8 +356,9 @@ def finish(report, min_report=25):
     ev = {"property_id": prop, "tier": report.tier, "seed": int(report.seed), "level": report.level,
           "coverage": cov, "assumptions": report.assumptions, "wall_s": round(wall, 2),
           "violations": len(fresh)}
-    os.makedirs(os.path.join(VERIF, "evidence"), exist_ok=True)
-    with open(os.path.join(VERIF, "evidence", "%s.json" % prop), "w") as fh:
+    edir = os.path.join(VERIF, "evidence", "_scratch") if scratch else os.path.join(VERIF, "evidence")
+    os.makedirs(edir, exist_ok=True)
+    with open(os.path.join(edir, "%s.json" % prop), "w") as fh:
         json.dump(ev, fh, indent=1, sort_keys=True)
     sys.stdout.write("%s tier=%s evaluations=%d distinct_nontrivial=%d outcomes=%s violations=%d known=%d wall=%.1fs %s\n" % (
         prop, report.tier, report.evaluations, len(report.nontrivial),
